@@ -144,7 +144,7 @@ def call_kwargs(c, return_utilities=True, variant=0):
             kw = dict(e.kwargs(c.ctx))
     # sample weights refer to the rows of X: strategies that retrain with a candidate (EMOC, EMVR, KLDM ...) reject them
     # for feature-row candidates, which have no weight
-    if variant == 2 and "sample_weight" in qp and (c.kind != "reg" or c.n_labeled >= 1) and c.cmode != "feat":
+    if variant == 2 and "sample_weight" in qp and c.cmode != "feat":
         kw["sample_weight"] = np.round(rng.rand(c.n) + 0.2, 2)
     if variant == 3 and "utility_weight" in qp and c.cmode != "feat":
         kw["utility_weight"] = np.round(rng.rand(c.n) + 0.5, 2)
